@@ -40,6 +40,10 @@ func GenWindow(r *Rng, allowInstant bool) Window {
 	if r.P(0.3) {
 		base += r.Int63n(29_999) // unaligned
 	}
+	if r.P(0.02) {
+		// around the epoch: evaluation times 0 and below are legal and hit sentinel values (T=-1, T=0)
+		base = Pick(r, []int64{-1, 0, 1, -1000, -45_000, -300_001, -29_999})
+	}
 	if allowInstant && r.P(0.25) {
 		return Window{StartMs: base, EndMs: base}
 	}
@@ -93,9 +97,6 @@ func GenSamples(r *Rng, w Window, lookback int64, hostile bool) []Sample {
 	L := effLookback(lookback)
 	lo := w.StartMs - L - 420_000
 	hi := w.EndMs + 180_000
-	if lo < 0 {
-		lo = 0
-	}
 	var out []Sample
 	layout := r.Intn(10)
 	interval := Pick(r, []int64{15_000, 30_000, 30_000, 60_000})
@@ -114,9 +115,6 @@ func GenSamples(r *Rng, w Window, lookback int64, hostile bool) []Sample {
 	cur := float64(r.Intn(50))
 	phase := r.Int63n(interval)
 	for t := from - (from % interval) + phase; t <= to; t += interval {
-		if t < 0 {
-			continue
-		}
 		tt := t
 		if layout == 4 || r.P(0.05) {
 			tt += r.Int63n(2001) - 1000 // jitter
